@@ -297,18 +297,19 @@ nfa, with no epsilon transition
             A dfa equivalent to the current nfa
         """
         dfa = finite_automaton.DeterministicFiniteAutomaton()
+        merger = StateMerger()
         # Add Eclose
         if eclose:
             start_eclose = self.eclose_iterable(self._start_state)
         else:
             start_eclose = self._start_state
-        start_state = to_single_state(start_eclose)
+        start_state = merger.get_state(start_eclose)
         dfa.add_start_state(start_state)
         to_process = [start_eclose]
         processed = {start_state}
         while to_process:
             current = to_process.pop()
-            s_from = to_single_state(current)
+            s_from = merger.get_state(current)
             for symb in self._input_symbols:
                 all_trans = [self._transition_function(x, symb)
                              for x in current]
@@ -320,7 +321,7 @@ nfa, with no epsilon transition
                 # Eclose added
                 if eclose:
                     state = self.eclose_iterable(state)
-                state_merged = to_single_state(state)
+                state_merged = merger.get_state(state)
                 dfa.add_transition(s_from, symb, state_merged)
                 if state_merged not in processed:
                     processed.add(state_merged)
@@ -970,6 +971,39 @@ def to_single_state(l_states: Iterable[State]) -> State:
             values.append("TRASH")
     values = sorted(values)
     return State(";".join(values))
+
+
+class StateMerger:
+    """ Gives one state to each set of states, distinct sets getting distinct
+    states even when their merged names coincide (e.g. the set {a, b} and the
+    single state "a;b")
+    """
+
+    def __init__(self):
+        self._merged = {}
+        self._used = set()
+
+    def get_state(self, l_states: Iterable[State]) -> State:
+        """ Get the state representing a set of states
+
+        Parameters
+        ----------
+        l_states : iterable of :class:`~pyformlang.finite_automaton.State`
+            A set of states
+
+        Returns
+        ----------
+        state : :class:`~pyformlang.finite_automaton.State`
+            The merged state
+        """
+        key = frozenset(l_states)
+        if key not in self._merged:
+            state = to_single_state(key)
+            while state in self._used:
+                state = State(str(state.value) + ";")
+            self._used.add(state)
+            self._merged[key] = state
+        return self._merged[key]
 
 
 def combine_state_pair(state0, state1):
